@@ -41,7 +41,20 @@ def domain(ctx):
         for d in samples:
             for ef in (False, True):
                 calls.append(('va', d, sch, ef))
+    # the schema named in its short forms ('athlete.json', 'json\\athlete.json': resolved through the search list of localpath)
+    for k in KINDS:
+        for sp in short_forms(k):
+            for d in ('sample-jsons/%s.json' % k, 'sample-jsons/%s_invalid.json' % k):
+                if d in samples and 'json/%s.json' % k in main:
+                    for ef in (False, True):
+                        calls.append(('va', d, sp, ef))
+            for ef in (False, True):
+                calls.append(('sv', sp, 'Draft4Validator', ef))
     return main, defs, samples, calls
+
+
+def short_forms(k):
+    return ['%s.json' % k, 'json\\%s.json' % k]
 
 
 def expectations(main, samples):
@@ -58,6 +71,12 @@ def expectations(main, samples):
             b = os.path.basename(d)
             if b.startswith(k + '_invalid'):
                 va(b, k + '.json', 'invalid')
+    for k in KINDS:
+        for sp in short_forms(k):
+            if 'json/%s.json' % k in M:
+                if 'sample-jsons/%s.json' % k in S: ex.append((('va', 'sample-jsons/%s.json' % k, sp), 'valid'))
+                if 'sample-jsons/%s_invalid.json' % k in S: ex.append((('va', 'sample-jsons/%s_invalid.json' % k, sp), 'invalid'))
+                ex.append((('sv', sp, 'Draft4Validator'), 'valid'))
     for d in samples:
         b = os.path.basename(d)
         if b.startswith('race_invalid'): va(b, 'race.json', 'invalid')
